@@ -105,6 +105,9 @@ func matchWire(b *binder, expr string, row wireRow) string {
 		return fmt.Sprintf("wire field(s) %v reach it; gtfs-realtime.proto binds it to %v", leaves, want)
 	}
 	for _, cl := range callsOf(expr) {
+		if b.classOf[cl] == clsZone {
+			continue // the zone helper only supplies context (which zone), checked by the ZONE rules
+		}
 		if !b.classAllowed(cl, row.calls) {
 			return "value passes through " + cl + " " + b.classOf[cl] + ", which is not an allowed transformer for this field"
 		}
@@ -132,6 +135,10 @@ func runWireTable(c *Ctx) {
 	p := c.P
 	fns := realtimeFns(c)
 	b := newBinder(c)
+	fnSet := map[*ssa.Function]bool{}
+	for _, f := range fns {
+		fnSet[f] = true
+	}
 	types := map[string]bool{}
 	rows := map[string]wireRow{}
 	for _, r := range wireOracle {
@@ -151,6 +158,10 @@ func runWireTable(c *Ctx) {
 		for _, fs := range collectFieldStores(fns, tn) {
 			key := tn + "." + fs.field
 			expr := b.bind(fs.store.Val)
+			if strings.Contains(expr, "param:<time.Location>") {
+				// the zone arrives as a parameter: say which zone the callers pass
+				expr = b.bindInContextT(fs.fn, fs.store.Val, fnSet, 0, "*time.Location")
+			}
 			fname := shortName(fs.fn)
 			if multi, ok := wireMulti[key]; ok {
 				seen[key] = true
